@@ -163,8 +163,15 @@ class Client(object):
         self.ChildrenWatch = None       # pylint: disable=invalid-name
 
     # -- hook ------------------------------------------------------------------------------
+    cut_kind = None             # 'loss': the write at the cut fails ONCE with a lost connection (the client lives on)
+    loss_fired = False
+
     def _write(self, kind, path, data):
         if self.cut is not None and self.writes >= self.cut:
+            if self.cut_kind == 'loss':
+                self.cut = None
+                self.loss_fired = True
+                raise ke.ConnectionLoss()
             raise Cut()
         self.writes += 1
         self.log.append((kind, path, data))
